@@ -18,6 +18,34 @@ pub struct WRec {
     pub entry: u8,
     /// line width used to build the RefRecord for the RefRecord entry points
     pub src_width: u8,
+    /// Some(k): before this record is written, the same call is made on a writer that fails after k bytes
+    /// (a full disk, a closed pipe); the caller carries on with the next write
+    #[serde(default)]
+    pub pre_fail: Option<u16>,
+}
+
+/// An `io::Write` that accepts `left` bytes and then fails.
+pub struct FailSink {
+    pub left: usize,
+    pub failed: bool,
+}
+
+impl std::io::Write for FailSink {
+    fn write(&mut self, buf: &[u8]) -> std::io::Result<usize> {
+        if buf.is_empty() {
+            return Ok(0);
+        }
+        if self.left == 0 {
+            self.failed = true;
+            return Err(std::io::Error::new(std::io::ErrorKind::Other, "verif: no space left on device"));
+        }
+        let k = buf.len().min(self.left);
+        self.left -= k;
+        Ok(k)
+    }
+    fn flush(&mut self) -> std::io::Result<()> {
+        Ok(())
+    }
 }
 
 #[derive(Clone, Debug, Serialize, Deserialize, Hash)]
@@ -106,7 +134,7 @@ pub fn chunks_of<'a>(seq: &'a [u8], cuts: &[(u16, bool)]) -> Vec<&'a [u8]> {
     out
 }
 
-fn write_one(out: &mut Sink, r: &WRec, wrap: usize) -> CheckResult {
+fn write_one<W: std::io::Write>(out: &mut W, r: &WRec, wrap: usize) -> CheckResult {
     let head = full_head(r);
     let chunks = chunks_of(&r.seq, &r.cuts);
     let io = |res: std::io::Result<()>| -> CheckResult {
@@ -165,6 +193,13 @@ pub fn check_case(c: &Case, ctx: &mut Ctx) -> CheckResult {
     let mut sink = Sink::new(c.sink);
     let mut spans = Vec::new();
     for r in &c.recs {
+        if let Some(k) = r.pre_fail {
+            let mut f = FailSink { left: k as usize, failed: false };
+            let _ = write_one(&mut f, r, c.wrap);
+            if f.failed {
+                ctx.class("a write that failed with an I/O error precedes the write");
+            }
+        }
         let s = sink.data.len();
         write_one(&mut sink, r, c.wrap)?;
         spans.push((s, sink.data.len()));
@@ -318,8 +353,9 @@ pub fn wrec(wrap_hint: usize) -> BoxedStrategy<WRec> {
     ];
     let seq_len = prop_oneof![60 => seq_len, 1 => 200usize..3000, 1 => 8000usize..20000];
     let seq = seq_len.prop_flat_map(|n| vec(prop::sample::select(&b"ACGTN acgt*-;@+\x80"[..]), n)).prop_map(B);
-    (head_part(false), prop::option::of(head_part(true)), seq, vec((any::<u16>(), prop::bool::weighted(0.2)), 0..5), 0u8..N_ENTRIES, 1u8..30)
-        .prop_map(|(mut id, mut desc, seq, cuts, entry, src_width)| {
+    let pre_fail = prop_oneof![6 => Just(None), 1 => (0u16..60).prop_map(Some), 1 => (60u16..9000).prop_map(Some)];
+    (head_part(false), prop::option::of(head_part(true)), seq, vec((any::<u16>(), prop::bool::weighted(0.2)), 0..5), 0u8..N_ENTRIES, 1u8..30, pre_fail)
+        .prop_map(|(mut id, mut desc, seq, cuts, entry, src_width, pre_fail)| {
             // the header must not end in CR
             match desc.as_mut() {
                 Some(d) => {
@@ -333,7 +369,7 @@ pub fn wrec(wrap_hint: usize) -> BoxedStrategy<WRec> {
                     }
                 }
             }
-            WRec { id, desc, seq, cuts, entry, src_width }
+            WRec { id, desc, seq, cuts, entry, src_width, pre_fail }
         })
         .boxed()
 }
@@ -357,7 +393,7 @@ impl Prop for FastaWrite {
     }
 }
 
-pub const RULE: &str = "cases = 1..5 records (id without space/LF, optional description, header not ending in CR, may contain '>', CR inside, non-UTF-8; sequence without LF/CR/'>' of length 0..200 with lengths k*wrap+{-1,0,1} over-weighted; chunking with cut points and inserted empty chunks; one of 11 writer entry points incl. RefRecord methods on a parsed multi-line rendering) x wrap 1..=70 (rarely up to 400), written back to back into a Vec or into a writer that accepts only part of each buffer (at most n bytes per write(), or never across an n-byte block boundary); sequences up to 20 kB with low weight. Oracle: parse(output) = the list of (header, sequence) and id/desc parts; on the raw bytes: wrapped lines <= wrap and all but the last == wrap, unwrapped output has one sequence line; write_seq = write_seq_iter(chunks); for non-empty sequences write_wrap_seq = write_wrap_seq_iter(chunks) byte for byte. Exhaustive sub-check: every sequence length 0..=8 x wrap 1..=9 x every set of cut points x {no, leading, trailing} empty chunk. Non-trivial = a sequence longer than wrap or >= 2 chunks. Distinct = hash(case).";
+pub const RULE: &str = "cases = 1..5 records (id without space/LF, optional description, header not ending in CR, may contain '>', CR inside, non-UTF-8; sequence without LF/CR/'>' of length 0..200 with lengths k*wrap+{-1,0,1} over-weighted; chunking with cut points and inserted empty chunks; one of 11 writer entry points incl. RefRecord methods on a parsed multi-line rendering) x wrap 1..=70 (rarely up to 400), written back to back into a Vec or into a writer that accepts only part of each buffer (at most n bytes per write(), or never across an n-byte block boundary); sequences up to 20 kB with low weight; with probability 1/4 a record's write is preceded by the same call on a writer that fails with an I/O error after k bytes (the result is ignored, as a caller that carries on would). Oracle: parse(output) = the list of (header, sequence) and id/desc parts; on the raw bytes: wrapped lines <= wrap and all but the last == wrap, unwrapped output has one sequence line; write_seq = write_seq_iter(chunks); for non-empty sequences write_wrap_seq = write_wrap_seq_iter(chunks) byte for byte. Exhaustive sub-check: every sequence length 0..=8 x wrap 1..=9 x every set of cut points x {no, leading, trailing} empty chunk. Non-trivial = a sequence longer than wrap or >= 2 chunks. Distinct = hash(case).";
 
 pub fn run(tier: Tier) -> i32 {
     let mut run = Run::new("C10", tier, "exploration");
@@ -419,7 +455,7 @@ pub fn run(tier: Tier) -> i32 {
                         }
                         if !ok {
                             let case = Case {
-                                recs: vec![WRec { id: B::new(b"x"), desc: None, seq: B(seq.clone()), cuts: (1..len).filter(|p| cutset >> (p - 1) & 1 == 1).map(|p| ((((p as u32) << 16) / (len as u32 + 1) + 1) as u16, false)).collect(), entry: 6, src_width: 1 }],
+                                recs: vec![WRec { id: B::new(b"x"), desc: None, seq: B(seq.clone()), cuts: (1..len).filter(|p| cutset >> (p - 1) & 1 == 1).map(|p| ((((p as u32) << 16) / (len as u32 + 1) + 1) as u16, false)).collect(), entry: 6, src_width: 1, pre_fail: None }],
                                 wrap,
                                 sink: (0, 0),
                             };
